@@ -78,7 +78,7 @@ structure Checkpoint where
 /-- open regions, innermost first; each corresponds to a guard / closure of the API -/
 inductive Frame where
   | scope (cp : Checkpoint)                          -- BumpScopeGuard / scoped
-  | alignedLower (outer : Nat)                       -- aligned::<N> with N < MIN_ALIGN (BumpAlignGuard)
+  | alignedLower (outer : Nat) (start : Cur)         -- aligned::<N> with N < MIN_ALIGN (BumpAlignGuard); `start`: the chunk current at creation
   | alignedRaise (outer : Nat)                       -- aligned::<N> with N ≥ MIN_ALIGN
   | scopedAligned (cp : Checkpoint) (outer : Nat)    -- scoped_aligned::<N>
   | claim                                            -- BumpClaimGuard
@@ -604,7 +604,8 @@ def alignTo (cfg : Cfg) (s : State) (n : Nat) : R State := do
     | _ => pure s
   else pure s
 
-/-- `BumpAlignGuard::drop`: re-align to the outer minimum alignment -/
+/-- `BumpAlignGuard::drop`, first half (`align_chunk(current)`): re-align the current chunk to the
+    outer minimum alignment -/
 def alignGuardDrop (cfg : Cfg) (s : State) (outer : Nat) : R State := do
   match s.cur with
   | .chunk i =>
@@ -613,6 +614,22 @@ def alignGuardDrop (cfg : Cfg) (s : State) (outer : Nat) : R State := do
     | some c =>
       let p ← liftM (Gen.LibArith.align_pos cfg.up outer c.pos)
       pure (setPos s i p)
+  | _ => pure s
+
+/-- `BumpAlignGuard::drop`, second half (`if self.start.header != current.header { align_chunk(self.start) }`):
+    the chunk that was current when the guard was created (`start`) is re-aligned to the outer minimum
+    alignment too when it is not the current chunk (a by-value copy of the scope that moved on to another
+    chunk leaves the scope it was copied from pointing at `start`).  Dummy chunks are skipped. -/
+def alignChunkAt (cfg : Cfg) (s : State) (outer : Nat) (start : Cur) : R State := do
+  match start with
+  | .chunk j =>
+    if s.cur = .chunk j then pure s
+    else
+      match s.chunks[j]? with
+      | none => pure s
+      | some c =>
+        let p ← liftM (Gen.LibArith.align_pos cfg.up outer c.pos)
+        pure (setPos s j p)
   | _ => pure s
 
 /-- `RawBump::make_allocated` -/
